@@ -1,4 +1,5 @@
 import MdsVerif.Model.Slice
+import MdsVerif.Proofs.SliceDefs
 /-!
 # Lemmas about the slice model: windows, tilings, Chunks/Batches loops, indexing
 -/
@@ -104,7 +105,7 @@ theorem tiles_window (mem : List α) (h : Hdr) (hw : h.WF mem.length) (cs : List
 /-! ### Chunks -/
 
 theorem chunksLoop_done (h : Hdr) (n f i : Nat) (hi : h.len ≤ i) : chunksLoop h n f i = .ok [] := by
-  cases f <;> simp [chunksLoop, Nat.not_lt.mpr hi]
+  cases f <;> simp [chunksLoop_zero, chunksLoop_succ, Nat.not_lt.mpr hi]
 
 theorem mem_dropLast_cons {β : Type} (c x : β) (cs : List β) (hx : x ∈ (c :: cs).dropLast) :
     (x = c ∧ cs ≠ []) ∨ x ∈ cs.dropLast := by
@@ -128,7 +129,7 @@ theorem chunksLoop_spec (h : Hdr) (hc : h.len ≤ h.cap) (n : Nat) (hn : 0 < n) 
     intro i hi hf
     have : i = h.len := by omega
     subst this
-    exact ⟨[], by simp [chunksLoop], by simp [Tiles], by omega, by simp, by simp⟩
+    exact ⟨[], by simp [chunksLoop_zero, chunksLoop_succ], by simp [Tiles], by omega, by simp, by simp⟩
   | succ f ih =>
     intro i hi hf
     by_cases hlt : i < h.len
@@ -136,7 +137,7 @@ theorem chunksLoop_spec (h : Hdr) (hc : h.len ≤ h.cap) (n : Nat) (hn : 0 < n) 
       have he2 : min (i + n) h.len ≤ h.len := by omega
       obtain ⟨cs, hcs, ht, hne, hall, hdl⟩ := ih (min (i + n) h.len) he2 (by omega)
       refine ⟨⟨h.off + i, min (i + n) h.len - i, min (i + n) h.len - i⟩ :: cs, ?_, ?_, ?_, ?_, ?_⟩
-      · simp only [chunksLoop, if_pos hlt]
+      · simp only [chunksLoop_zero, chunksLoop_succ, if_pos hlt]
         rw [slice3_nat h _ _ _ he1 (Nat.le_refl _) (by omega)]
         simp only [Res.bind, hcs, Res.map]
       · refine ⟨rfl, ?_⟩
@@ -160,7 +161,7 @@ theorem chunksLoop_spec (h : Hdr) (hc : h.len ≤ h.cap) (n : Nat) (hn : 0 < n) 
         · exact hdl c hcm
     · have : i = h.len := by omega
       subst this
-      exact ⟨[], by simp [chunksLoop], by simp [Tiles], by omega, by simp, by simp⟩
+      exact ⟨[], by simp [chunksLoop_zero, chunksLoop_succ], by simp [Tiles], by omega, by simp, by simp⟩
 
 /-! ### Batches -/
 
@@ -177,7 +178,7 @@ theorem batchesLoop_spec (h : Hdr) (hc : h.len ≤ h.cap) (size : Nat) (hs : 0 <
     subst hc0
     have : i = h.len := by simp at hrem; omega
     subst this
-    exact ⟨[], by simp [batchesLoop], rfl, by simp [Tiles], by simp⟩
+    exact ⟨[], by simp [batchesLoop_zero, batchesLoop_succ], rfl, by simp [Tiles], by simp⟩
   | succ f ih =>
     intro i rem cnt hi hrem hrc hcf
     by_cases hlt : i < h.len
@@ -191,7 +192,7 @@ theorem batchesLoop_spec (h : Hdr) (hc : h.len ≤ h.cap) (size : Nat) (hs : 0 <
       by_cases hr : rem > 0
       · obtain ⟨bs, hbs, hl, ht, hall⟩ := ih (i + size + 1) (rem - 1) cnt' (by omega) (by omega) (by omega) (by omega)
         refine ⟨⟨h.off + i, size + 1, size + 1⟩ :: bs, ?_, by simp [hl], ?_, ?_⟩
-        · simp only [batchesLoop, if_pos hlt, if_pos hr]
+        · simp only [batchesLoop_zero, batchesLoop_succ, if_pos hlt, if_pos hr]
           rw [slice3_nat h _ _ _ (by omega) (Nat.le_refl _) (by omega)]
           have e : i + size + 1 - i = size + 1 := by omega
           simp only [Res.bind, hbs, Res.map, e]
@@ -206,7 +207,7 @@ theorem batchesLoop_spec (h : Hdr) (hc : h.len ≤ h.cap) (size : Nat) (hs : 0 <
         subst hr0
         obtain ⟨bs, hbs, hl, ht, hall⟩ := ih (i + size) 0 cnt' (by omega) (by omega) (by omega) (by omega)
         refine ⟨⟨h.off + i, size, size⟩ :: bs, ?_, by simp [hl], ?_, ?_⟩
-        · simp only [batchesLoop, if_pos hlt, if_neg hr]
+        · simp only [batchesLoop_zero, batchesLoop_succ, if_pos hlt, if_neg hr]
           rw [slice3_nat h _ _ _ (by omega) (Nat.le_refl _) (by omega)]
           have e : i + size - i = size := by omega
           simp only [Res.bind, hbs, Res.map, e]
@@ -226,6 +227,6 @@ theorem batchesLoop_spec (h : Hdr) (hc : h.len ≤ h.cap) (size : Nat) (hs : 0 <
           have : size * 1 ≤ size * cnt := Nat.mul_le_mul_left size h0
           omega
       subst hc0
-      exact ⟨[], by simp [batchesLoop], rfl, by simp [Tiles], by simp⟩
+      exact ⟨[], by simp [batchesLoop_zero, batchesLoop_succ], rfl, by simp [Tiles], by simp⟩
 
 end MdsVerif.Proofs.Slice
